@@ -304,6 +304,54 @@ def run(ctx: core.Ctx):
         del payload, got
     samples.append(dict(kind="frame_lens", n=lens[3], model=mlens[3]))
 
+    # ---- B2c: read side, SEQUENCES of client payloads on one stream with exact multiples of 2^24-1 among them: what an earlier
+    #      payload leaves behind must not leak into the next one.  Whole, header-split and in 65537-byte chunks.
+    rseqs = [[M, 1], [3, M, 0, 2], [0, 1, M - 1, M, M + 1, 5]]
+    if not ctx.quick:
+        rseqs += [[2 * M, 2 * M + 1, 4], [M, M, 1], [1, 2 * M, 0, M, 3]]
+    for sizes in (rseqs if not ctx.violations else []):
+        payloads = [(bytes(range(k + 1, 256)) * (n // 200 + 1))[:n] for k, n in enumerate(sizes)]
+        wire, q = bytearray(), 0
+        for pl in payloads:
+            fr = cl.frame(pl, q)
+            q += len(pl) // M + 1
+            wire += fr
+        wire = bytes(wire)
+        for how, chunks in (("whole", [wire]), ("header-split", cut(wire, [2, len(wire) - 1])),
+                            ("65537-byte chunks", [wire[i:i + 65537] for i in range(0, len(wire), 65537)])):
+            pc, tail = impl.run_stream_reader(chunks, eof=True)
+            flat = [d for c in pc for d in c]
+            distinct.add(("rseq", tuple(sizes), how)); ctx.evals += 1
+            got_sizes = [len(d[1]) if d[0] == "Payload" else d[0] for d in flat]
+            if not (len(flat) == len(payloads) and all(d[0] == "Payload" and d[1] == pl for d, pl in zip(flat, payloads))):
+                core.report_violation(ctx, "a sequence of client payloads on one connection is not reassembled to the same payloads",
+                                      dict(kind="read-sequence", sent_sizes=sizes, delivery=how, reassembled_sizes=got_sizes[:10]))
+                break
+        del payloads, wire
+    # the same through the whole server: long data of exactly k*(2^24-1) bytes of payload, then two PINGs
+    for k in ((1,) if ctx.quick else (1, 2)):
+        if ctx.violations:
+            break
+        env = impl.Env(own_sleep=False)
+        try:
+            srv = impl.make_server(env, lambda: impl.ScriptSession(env, 0))
+            c = impl.Conn(env, srv)
+            env.settle(); c.take()
+            c.feed(cl.frame(cl.handshake_response(user=b"u"), 1)); c.take()
+            c.feed(cl.frame(bytes([cl.COM_STMT_PREPARE]) + b"SELECT ?", 0))
+            sid = struct.unpack("<I", cl.split_raw(c.take())[0][1][1:5])[0]
+            c.feed(cl.frame(bytes([cl.COM_STMT_SEND_LONG_DATA]) + struct.pack("<IH", sid, 0) + b"d" * (k * M - 7), 0))
+            c.feed(cl.frame(bytes([cl.COM_PING]), 0))
+            c.feed(cl.frame(bytes([cl.COM_PING]), 0))
+            got = cl.split_raw(c.take())
+            distinct.add(("rseq-server", k)); ctx.evals += 1
+            if [(q_, p_[:1]) for q_, p_ in got] != [(1, b"\x00"), (1, b"\x00")]:
+                core.report_violation(ctx, "commands sent after a payload of an exact multiple of 2^24-1 bytes are not answered as on a fresh connection",
+                                      dict(kind="read-sequence-server", long_data_payload_bytes=k * M, then="COM_PING, COM_PING",
+                                           answered=[(q_, p_[:12].hex()) for q_, p_ in got][:6]))
+        finally:
+            env.close()
+
     # ---- B3: read side, arrival histories (model evaluated in Coq) -------------------------------
     streams = [gen_stream(rng) for _ in range(60 if ctx.quick else 600)]
     rcases = []
